@@ -6,14 +6,18 @@ CONFIG = {
         "files": ["ledger/zz_verif_c11_test.go"],
         "util": [("ledger", "ledger")],
         "env": {"quick": {"VERIF_C11_N": 2500, "VERIF_C11_OPS": 40},
-                "thorough": {"VERIF_C11_N": 60000, "VERIF_C11_OPS": 60}},
-        "timeout": {"quick": 900, "thorough": 3000},
+                "thorough": {"VERIF_C11_N": 60000, "VERIF_C11_OPS": 60},
+                "search": {"VERIF_C11_N": 15000, "VERIF_C11_OPS": 50}},
+        "search_tier": "search",
+        "timeout": {"quick": 900, "thorough": 3000, "search": 1500},
     }, {
         "name": "cow", "pkg": "./ledger/eval/", "run": "^TestVerifC11Cow$",
         "files": ["ledger/eval/zz_verif_c11_cow_test.go"],
         "util": [("ledger/eval", "eval")],
-        "env": {"quick": {"VERIF_C11_COW_N": 4000}, "thorough": {"VERIF_C11_COW_N": 80000}},
-        "timeout": {"quick": 900, "thorough": 3000},
+        "env": {"quick": {"VERIF_C11_COW_N": 4000}, "thorough": {"VERIF_C11_COW_N": 80000},
+                "search": {"VERIF_C11_COW_N": 30000}},
+        "search_tier": "search",
+        "timeout": {"quick": 900, "thorough": 3000, "search": 1500},
     }],
     "rule": "one case = one whole history driven through the REAL txTail (newBlock, committedUpTo, prepareCommit+commitRound+postCommit "
             "against a real in-memory SQLite tracker DB, fresh txTail.loadFromDisk + replay with an arbitrary number of lost blocks) under consensus "
